@@ -344,8 +344,9 @@ func checkC10(c *Ctx) {
 	r := rand.New(rand.NewSource(c.Seed))
 	var cases []c10Case
 	srcStates := []string{"", "z1", "."}
-	dstStates := []string{"absent", "", "z", "."}
-	n := 700
+	dstStates := []string{"absent", "", "z", ".", "clash"}
+	clash := map[string]string{"A/y": "x", "a/x": "y", "b.io/x": "y"} // an alias that is another library's package name
+	n := 1200
 	if !c.Quick() {
 		n = 12000
 	}
@@ -360,6 +361,9 @@ func checkC10(c *Ctx) {
 			cs.DstState[p] = dstStates[r.Intn(len(dstStates))]
 			if cs.DstState[p] == "z" {
 				cs.DstState[p] = fmt.Sprintf("w%d", i+1)
+			}
+			if cs.DstState[p] == "clash" {
+				cs.DstState[p] = clash[p]
 			}
 		}
 		if cs.SamePkg {
